@@ -69,7 +69,20 @@ func c08Matrix(r *R, prop string) {
 	r.Count("dim tree=" + c08Trees[cell.tree])
 	r.Count("dim strategy=" + []string{"one-for-one", "one-for-all"}[cell.strat])
 	D := c08Decisions[cell.dec]
-	w := newWorld(r, WorldOpt{})
+	wopt := WorldOpt{}
+	sysEscalates := false
+	if cell.dec == 5 && r.Chance(20) {
+		sysEscalates = true
+		// the system-level strategy escalates as well: at the top there is nobody left to escalate to, the chain ends there
+		// with the default, Stop
+		wopt.MakeStrategy = func(w *World) vivid.SupervisionStrategy {
+			return vivid.OneForOneStrategy(w.NewMaker("system", func(n int, ctx vivid.SupervisionContext) vivid.SupervisionDecision {
+				return vivid.SupervisionDecisionEscalate
+			}))
+		}
+		r.Count("system-strategy-escalates-too")
+	}
+	w := newWorld(r, wopt)
 	if r.Failed() {
 		return
 	}
@@ -298,7 +311,9 @@ func c08Matrix(r *R, prop string) {
 		childOfDecider = "/sup/c0"
 	}
 	stopsSup := false
-	if cell.tree == 5 {
+	if cell.tree == 5 && sysEscalates {
+		effective = vivid.SupervisionDecisionEscalate // /sup answers with the system-level strategy, which escalates in this run
+	} else if cell.tree == 5 {
 		effective = vivid.SupervisionDecisionStop // system default
 		// /sup has no strategy: the system default (one-for-one Stop) is applied by /sup itself to the failing child
 	}
